@@ -515,14 +515,44 @@ class SymExec:
                     if mnode is not None and all(v is not None for v in dnodes.values()):
                         allids = {v.id for v in dnodes.values()}
                         reaching = [a_ for a_ in defs_ if mnode.id in cfg_.reachable(dnodes[a_['id']].id, stop=allids - {dnodes[a_['id']].id})]
-                        if reaching and all(a_['op'] == '=' and strip_casts(a_['r']).get('k') == 'call' and
-                                            callee_name(strip_casts(a_['r'])) == 'sprintf' and strip_casts(a_['r'])['args'] and
-                                            strip_casts(strip_casts(a_['r'])['args'][0]).get('d') == a0_['d'] for a_ in reaching):
+                        def fills_with_terminator(a_):
+                            if a_['op'] != '=':
+                                return False
+                            r_ = strip_casts(a_['r'])
+                            if r_.get('k') == 'call' and callee_name(r_) == 'sprintf' and r_['args'] and \
+                                    strip_casts(r_['args'][0]).get('d') == a0_['d']:
+                                return True
+                            # length = strlen of a literal that was copied into the array together with its terminator:
+                            # memcpy(A, "null", sizeof("null")); length = sizeof("null") - 1;
+                            k_ = const_val(a_['r'])
+                            if k_ is not None:
+                                for m_ in self.fn.calls():
+                                    if callee_name(m_) in ('memcpy', 'strcpy') and m_['args'] and strip_casts(m_['args'][0]).get('d') == a0_['d'] and \
+                                            strip_casts(m_['args'][1]).get('k') == 'str' and len(strip_casts(m_['args'][1])['bytes']) == k_ and \
+                                            (callee_name(m_) == 'strcpy' or const_val(m_['args'][2]) == k_ + 1):
+                                        mn_ = cfg_.node_of_expr(m_['id'])
+                                        dn_ = dnodes[a_['id']]
+                                        if mn_ is not None and (dn_.id in cfg_.reachable(mn_.id)) and not any(
+                                                x_.id != mn_.id and x_.id in cfg_.reachable(mn_.id, stop={dn_.id}) and any(
+                                                    c2_.get('k') == 'call' and c2_ is not m_ and c2_.get('args') and
+                                                    strip_casts(c2_['args'][0]).get('d') == a0_['d'] for c2_ in walk(getattr(x_, 'expr', None) or {}))
+                                                for x_ in cfg_.nodes):
+                                            return True
+                            return False
+                        if reaching and all(fills_with_terminator(a_) for a_ in reaching):
                             nul = True
                 # an entry of a constant table of {text, length} records, copied with length + 1 bytes: the terminator comes along
                 # if every entry of the tables the pointer can stand in has length == strlen(text)
                 if not nul and self._table_entry_with_terminator(strip_casts(args[1]), n):
                     nul = True
+                # the scratch array copied with a constant length on this path: the literal that was copied into it with its
+                # terminator (memcpy(A, "null", 5); ... memcpy(p, A, 5))
+                if not nul and a0_.get('k') == 'ref' and self.u.ty(a0_.get('ty0', a0_['ty']))['c'] == 'array' and not n.t:
+                    for m_ in self.fn.calls():
+                        if callee_name(m_) in ('memcpy', 'strcpy') and m_ is not c and m_['args'] and strip_casts(m_['args'][0]).get('d') == a0_['d'] and \
+                                strip_casts(m_['args'][1]).get('k') == 'str' and len(strip_casts(m_['args'][1])['bytes']) + 1 == n.c and \
+                                (callee_name(m_) == 'strcpy' or const_val(m_['args'][2]) == n.c):
+                            nul = True
                 # source and length both handed in by the caller: whether the last byte copied is the terminator is the
                 # callers' business (checked at every call site by out23)
                 pidx = {p['d']: i for i, p in enumerate(self.fn.params)}
